@@ -47,12 +47,49 @@ var fileImportRewrites = map[string]map[string][2]string{
 
 var chanOps = map[string]int{}
 
+// statement-level scheduling points (-fine): plain-memory accesses between two synchronisation
+// operations become interleavable in the named files
+var finePrefixes []string
+var nFine int
+
+func isFine(rel string) bool {
+	for _, p := range finePrefixes {
+		if strings.HasPrefix(rel, p) {
+			return true
+		}
+	}
+	return false
+}
+
+func yieldStmt(fset *token.FileSet, rel string, at token.Pos) ast.Stmt {
+	nFine++
+	label := fmt.Sprintf("fine %s:%d", rel, fset.Position(at).Line)
+	return &ast.ExprStmt{X: &ast.CallExpr{
+		Fun:  &ast.SelectorExpr{X: ast.NewIdent("__vrt"), Sel: ast.NewIdent("Yield")},
+		Args: []ast.Expr{&ast.BasicLit{Kind: token.STRING, Value: strconv.Quote(label)}},
+	}}
+}
+
+func fineList(fset *token.FileSet, rel string, list []ast.Stmt) []ast.Stmt {
+	out := make([]ast.Stmt, 0, 2*len(list))
+	for _, s := range list {
+		out = append(out, yieldStmt(fset, rel, s.Pos()), s)
+	}
+	return out
+}
+
 func main() {
 	repo := flag.String("repo", "", "repository root")
 	out := flag.String("out", "", "output directory")
 	export := flag.String("export", "", "directory with export files to add (mirrors package paths)")
 	copySrc := flag.String("copy", "", "rewrite a single dependency package directory into -out")
+	fine := flag.String("fine", "", "comma-separated repository path prefixes whose functions get a scheduling point before every statement")
 	flag.Parse()
+	for _, p := range strings.Split(*fine, ",") {
+		if p = strings.TrimSpace(p); p != "" {
+			finePrefixes = append(finePrefixes, p)
+		}
+	}
 	if *out == "" {
 		fatal("need -out")
 	}
@@ -143,6 +180,7 @@ func main() {
 		ks = append(ks, fmt.Sprintf("%s=%d", k, v))
 	}
 	sort.Strings(ks)
+	fmt.Printf("instr: fine-points=%d\n", nFine)
 	fmt.Printf("instr: rewritten=%d export=%d channel-ops(uninstrumented): %s\n", nRewritten, nExport, strings.Join(ks, " "))
 }
 
@@ -231,6 +269,44 @@ func rewriteFile(path, rel string) ([]byte, bool) {
 		}
 		return true
 	})
+	if isFine(rel) {
+		for _, cg := range f.Comments {
+			for _, c := range cg.List {
+				if strings.HasPrefix(c.Text, "//go:") || strings.HasPrefix(c.Text, "// +build") || strings.HasPrefix(c.Text, "//export") {
+					fatal("fine-grained file with a directive comment: " + rel)
+				}
+			}
+		}
+		f.Comments = nil // inserted statements have no positions; free-floating comments would be misplaced
+		var nodes []ast.Node
+		for _, d := range f.Decls {
+			fd, ok := d.(*ast.FuncDecl)
+			if !ok || fd.Body == nil || fd.Name.Name == "init" {
+				continue
+			}
+			fd.Doc = nil
+			ast.Inspect(fd.Body, func(n ast.Node) bool {
+				switch n.(type) {
+				case *ast.BlockStmt, *ast.CaseClause, *ast.CommClause:
+					nodes = append(nodes, n)
+				}
+				return true
+			})
+		}
+		for _, n := range nodes {
+			switch v := n.(type) {
+			case *ast.BlockStmt:
+				v.List = fineList(fset, rel, v.List)
+			case *ast.CaseClause:
+				v.Body = fineList(fset, rel, v.Body)
+			case *ast.CommClause:
+				v.Body = fineList(fset, rel, v.Body)
+			}
+		}
+		if len(nodes) > 0 {
+			needVrt = true
+		}
+	}
 	if needVrt {
 		addImports["__vrt"] = "ipchubverif/vrt"
 		changed = true
